@@ -1,1 +1,729 @@
-pub fn dummy() {}
+//! Independent DER/BER oracles (no dependency on yasna or rcgen):
+//!
+//! * `Tlv` / `read_tlv`: BER-tolerant definite-length TLV reader (accepts non-minimal
+//!   lengths); content decoders for INTEGER, OID, BOOLEAN, BIT STRING named-bit lists.
+//! * `strict_*`: the DER rules of C04 (minimal lengths, minimal INTEGER / OID arcs,
+//!   BOOLEAN 00/FF, BIT STRING padding, string alphabets, time forms, SET OF order).
+//! * `Enc`: a tiny reference encoder for unit harnesses where byte equality is the claim.
+//!
+//! Written for symbolic execution: slices and indices only, no allocation in the readers,
+//! every loop bounded by the length of the buffer it walks.
+
+#[derive(Clone, Copy, Debug, PartialEq, Eq)]
+pub struct Tlv {
+    /// identifier octet (single-octet tags only; tag numbers >= 31 are rejected)
+    pub tag: u8,
+    /// offset of the identifier octet
+    pub hdr: usize,
+    /// content range
+    pub start: usize,
+    pub end: usize,
+    /// the length octets were in the minimal DER form
+    pub minimal: bool,
+}
+
+impl Tlv {
+    pub fn len(&self) -> usize {
+        self.end - self.start
+    }
+    pub fn constructed(&self) -> bool {
+        self.tag & 0x20 != 0
+    }
+}
+
+pub const SEQ: u8 = 0x30;
+pub const SET: u8 = 0x31;
+pub const INT: u8 = 0x02;
+pub const BITSTR: u8 = 0x03;
+pub const OCTSTR: u8 = 0x04;
+pub const NULL: u8 = 0x05;
+pub const OID: u8 = 0x06;
+pub const ENUM: u8 = 0x0a;
+pub const UTF8: u8 = 0x0c;
+pub const PRINTABLE: u8 = 0x13;
+pub const TELETEX: u8 = 0x14;
+pub const IA5: u8 = 0x16;
+pub const UTCTIME: u8 = 0x17;
+pub const GENTIME: u8 = 0x18;
+pub const UNIVERSAL: u8 = 0x1c;
+pub const BMP: u8 = 0x1e;
+pub const BOOL: u8 = 0x01;
+
+/// Read one TLV starting at `pos`; it must end at or before `limit`.
+pub fn read_tlv(buf: &[u8], pos: usize, limit: usize) -> Option<Tlv> {
+    if limit > buf.len() || pos + 2 > limit {
+        return None;
+    }
+    let tag = buf[pos];
+    if tag & 0x1f == 0x1f {
+        return None;
+    }
+    let l0 = buf[pos + 1];
+    let (len, start, minimal) = if l0 < 0x80 {
+        (l0 as usize, pos + 2, true)
+    } else {
+        let n = (l0 & 0x7f) as usize;
+        if n == 0 || n > 3 || pos + 2 + n > limit {
+            return None;
+        }
+        let mut len = 0usize;
+        let mut i = 0;
+        while i < n {
+            len = (len << 8) | buf[pos + 2 + i] as usize;
+            i += 1;
+        }
+        let minimal = len >= 0x80 && buf[pos + 2] != 0;
+        (len, pos + 2 + n, minimal)
+    };
+    if start + len > limit {
+        return None;
+    }
+    Some(Tlv { tag, hdr: pos, start, end: start + len, minimal })
+}
+
+/// Read the single TLV that makes up the whole of `buf` (no trailing bytes).
+pub fn read_whole(buf: &[u8]) -> Option<Tlv> {
+    let t = read_tlv(buf, 0, buf.len())?;
+    if t.end != buf.len() {
+        return None;
+    }
+    Some(t)
+}
+
+/// Cursor over the children of a constructed TLV.
+#[derive(Clone, Copy)]
+pub struct Cur {
+    pub pos: usize,
+    pub end: usize,
+}
+
+impl Cur {
+    pub fn of(t: &Tlv) -> Cur {
+        Cur { pos: t.start, end: t.end }
+    }
+    pub fn done(&self) -> bool {
+        self.pos >= self.end
+    }
+    pub fn next(&mut self, buf: &[u8]) -> Option<Tlv> {
+        let t = read_tlv(buf, self.pos, self.end)?;
+        self.pos = t.end;
+        Some(t)
+    }
+    /// Next child if it has tag `tag`, otherwise leave the cursor where it is.
+    pub fn next_if(&mut self, buf: &[u8], tag: u8) -> Option<Tlv> {
+        if self.done() {
+            return None;
+        }
+        let t = read_tlv(buf, self.pos, self.end)?;
+        if t.tag != tag {
+            return None;
+        }
+        self.pos = t.end;
+        Some(t)
+    }
+    pub fn expect(&mut self, buf: &[u8], tag: u8) -> Option<Tlv> {
+        let t = self.next(buf)?;
+        if t.tag != tag {
+            return None;
+        }
+        Some(t)
+    }
+}
+
+pub fn bytes_eq(buf: &[u8], start: usize, end: usize, exp: &[u8]) -> bool {
+    if end < start || end - start != exp.len() || end > buf.len() {
+        return false;
+    }
+    let mut i = 0;
+    while i < exp.len() {
+        if buf[start + i] != exp[i] {
+            return false;
+        }
+        i += 1;
+    }
+    true
+}
+
+pub fn content_eq(buf: &[u8], t: &Tlv, exp: &[u8]) -> bool {
+    bytes_eq(buf, t.start, t.end, exp)
+}
+
+pub fn range_eq(a: &[u8], a0: usize, a1: usize, b: &[u8], b0: usize, b1: usize) -> bool {
+    if a1 < a0 || b1 < b0 || a1 - a0 != b1 - b0 || a1 > a.len() || b1 > b.len() {
+        return false;
+    }
+    let mut i = 0;
+    while i < a1 - a0 {
+        if a[a0 + i] != b[b0 + i] {
+            return false;
+        }
+        i += 1;
+    }
+    true
+}
+
+pub const MAX_ARCS: usize = 12;
+
+/// Decode OBJECT IDENTIFIER content into arcs (BER tolerant: leading 0x80 octets accepted).
+pub fn oid_arcs(buf: &[u8], t: &Tlv) -> Option<([u64; MAX_ARCS], usize)> {
+    let mut arcs = [0u64; MAX_ARCS];
+    let mut n = 0usize;
+    let mut i = t.start;
+    if i >= t.end {
+        return None;
+    }
+    let mut first = true;
+    while i < t.end {
+        let mut v: u64 = 0;
+        let mut k = 0;
+        loop {
+            if i >= t.end || k >= 10 {
+                return None;
+            }
+            let b = buf[i];
+            i += 1;
+            k += 1;
+            if v >> 57 != 0 {
+                return None;
+            }
+            v = (v << 7) | (b & 0x7f) as u64;
+            if b & 0x80 == 0 {
+                break;
+            }
+        }
+        if first {
+            first = false;
+            let (a, b) = if v < 40 { (0, v) } else if v < 80 { (1, v - 40) } else { (2, v - 80) };
+            arcs[0] = a;
+            arcs[1] = b;
+            n = 2;
+        } else {
+            if n >= MAX_ARCS {
+                return None;
+            }
+            arcs[n] = v;
+            n += 1;
+        }
+    }
+    Some((arcs, n))
+}
+
+pub fn oid_is(buf: &[u8], t: &Tlv, exp: &[u64]) -> bool {
+    if t.tag != OID {
+        return false;
+    }
+    match oid_arcs(buf, t) {
+        None => false,
+        Some((arcs, n)) => {
+            if n != exp.len() {
+                return false;
+            }
+            let mut i = 0;
+            while i < n {
+                if arcs[i] != exp[i] {
+                    return false;
+                }
+                i += 1;
+            }
+            true
+        },
+    }
+}
+
+/// The value of a non-negative INTEGER equals the big-endian magnitude `mag` (leading zero
+/// octets on either side ignored). A negative encoding never matches.
+pub fn uint_is(buf: &[u8], t: &Tlv, mag: &[u8]) -> bool {
+    if t.tag != INT || t.len() == 0 {
+        return false;
+    }
+    if buf[t.start] & 0x80 != 0 {
+        return false;
+    }
+    let mut a = t.start;
+    while a < t.end && buf[a] == 0 {
+        a += 1;
+    }
+    let mut b = 0;
+    while b < mag.len() && mag[b] == 0 {
+        b += 1;
+    }
+    if t.end - a != mag.len() - b {
+        return false;
+    }
+    let mut i = 0;
+    while a + i < t.end {
+        if buf[a + i] != mag[b + i] {
+            return false;
+        }
+        i += 1;
+    }
+    true
+}
+
+/// Small non-negative INTEGER / ENUMERATED value (at most 4 content octets).
+pub fn small_uint(buf: &[u8], t: &Tlv) -> Option<u32> {
+    if t.len() == 0 || t.len() > 4 || buf[t.start] & 0x80 != 0 {
+        return None;
+    }
+    let mut v = 0u32;
+    let mut i = t.start;
+    while i < t.end {
+        v = (v << 8) | buf[i] as u32;
+        i += 1;
+    }
+    Some(v)
+}
+
+/// BOOLEAN value (BER tolerant: any non-zero octet is TRUE).
+pub fn bool_val(buf: &[u8], t: &Tlv) -> Option<bool> {
+    if t.len() != 1 {
+        return None;
+    }
+    Some(buf[t.start] != 0)
+}
+
+/// Named-bit list (BIT STRING) as a 16-bit mask, bit 0 = MSB of the first content octet
+/// i.e. mask bit 15. Trailing zero bits are irrelevant; at most 2 content octets.
+pub fn named_bits16(buf: &[u8], t: &Tlv) -> Option<u16> {
+    if t.tag & 0x1f != BITSTR || t.len() < 1 || t.len() > 3 {
+        return None;
+    }
+    let unused = buf[t.start];
+    if unused > 7 || (t.len() == 1 && unused != 0) {
+        return None;
+    }
+    let b0 = if t.len() >= 2 { buf[t.start + 1] } else { 0 };
+    let b1 = if t.len() >= 3 { buf[t.start + 2] } else { 0 };
+    let mut v = ((b0 as u16) << 8) | b1 as u16;
+    // unused bits are not part of the value
+    let total_unused = unused as u32 + if t.len() == 2 { 8 } else if t.len() == 1 { 16 } else { 0 };
+    if total_unused < 16 {
+        v &= !(((1u32 << total_unused) - 1) as u16);
+    } else {
+        v = 0;
+    }
+    Some(v)
+}
+
+// ------------------------------------------------------------------------------------------
+// Strict DER rules (C04)
+
+#[derive(Clone, Copy, Debug, PartialEq, Eq)]
+pub enum DerErr {
+    Ok,
+    Truncated,
+    NonMinimalLength,
+    Integer,
+    Boolean,
+    BitString,
+    OidEnc,
+    Null,
+    Alphabet,
+    Time,
+    SetOrder,
+    Trailing,
+    HighTag,
+    Depth,
+}
+
+fn is_printable(b: u8) -> bool {
+    (b >= b'A' && b <= b'Z')
+        || (b >= b'a' && b <= b'z')
+        || (b >= b'0' && b <= b'9')
+        || b == b' '
+        || b == b'\''
+        || b == b'('
+        || b == b')'
+        || b == b'+'
+        || b == b','
+        || b == b'-'
+        || b == b'.'
+        || b == b'/'
+        || b == b':'
+        || b == b'='
+        || b == b'?'
+}
+
+fn digits2(buf: &[u8], p: usize) -> Option<u32> {
+    let a = buf[p];
+    let b = buf[p + 1];
+    if a < b'0' || a > b'9' || b < b'0' || b > b'9' {
+        return None;
+    }
+    Some((a - b'0') as u32 * 10 + (b - b'0') as u32)
+}
+
+/// RFC 5280 time forms: UTCTime `YYMMDDHHMMSSZ`, GeneralizedTime `YYYYMMDDHHMMSSZ`.
+pub fn strict_time(buf: &[u8], t: &Tlv) -> bool {
+    let n = t.len();
+    let univ = t.tag & 0x1f;
+    if (univ == UTCTIME && n != 13) || (univ == GENTIME && n != 15) {
+        return false;
+    }
+    if buf[t.end - 1] != b'Z' {
+        return false;
+    }
+    let mut p = t.start;
+    if univ == GENTIME {
+        if digits2(buf, p).is_none() {
+            return false;
+        }
+        p += 2;
+    }
+    if digits2(buf, p).is_none() {
+        return false;
+    }
+    let (mo, d, h, mi, s) = match (digits2(buf, p + 2), digits2(buf, p + 4), digits2(buf, p + 6), digits2(buf, p + 8), digits2(buf, p + 10)) {
+        (Some(a), Some(b), Some(c), Some(d), Some(e)) => (a, b, c, d, e),
+        _ => return false,
+    };
+    mo >= 1 && mo <= 12 && d >= 1 && d <= 31 && h <= 23 && mi <= 59 && s <= 59
+}
+
+/// Content rules of one primitive universal type (`univ` = universal tag number; used both for
+/// universal tags and for IMPLICIT context tags whose underlying type the caller knows).
+pub fn strict_primitive(buf: &[u8], t: &Tlv, univ: u8) -> DerErr {
+    let n = t.len();
+    let s = t.start;
+    match univ {
+        BOOL => {
+            if n != 1 || (buf[s] != 0x00 && buf[s] != 0xff) {
+                return DerErr::Boolean;
+            }
+        },
+        INT | ENUM => {
+            if n == 0 {
+                return DerErr::Integer;
+            }
+            if n > 1 {
+                let b0 = buf[s];
+                let b1 = buf[s + 1];
+                if (b0 == 0x00 && b1 & 0x80 == 0) || (b0 == 0xff && b1 & 0x80 != 0) {
+                    return DerErr::Integer;
+                }
+            }
+        },
+        BITSTR => {
+            if n == 0 {
+                return DerErr::BitString;
+            }
+            let unused = buf[s];
+            if unused > 7 || (n == 1 && unused != 0) {
+                return DerErr::BitString;
+            }
+            if n > 1 && unused > 0 {
+                let last = buf[t.end - 1];
+                if last & ((1u8 << unused) - 1) != 0 {
+                    return DerErr::BitString;
+                }
+            }
+        },
+        NULL => {
+            if n != 0 {
+                return DerErr::Null;
+            }
+        },
+        OID => {
+            if n == 0 || buf[t.end - 1] & 0x80 != 0 {
+                return DerErr::OidEnc;
+            }
+            // no arc may start with the padding octet 0x80
+            let mut i = s;
+            let mut at_start = true;
+            while i < t.end {
+                let b = buf[i];
+                if at_start && b == 0x80 {
+                    return DerErr::OidEnc;
+                }
+                at_start = b & 0x80 == 0;
+                i += 1;
+            }
+        },
+        PRINTABLE => {
+            let mut i = s;
+            while i < t.end {
+                if !is_printable(buf[i]) {
+                    return DerErr::Alphabet;
+                }
+                i += 1;
+            }
+        },
+        IA5 => {
+            let mut i = s;
+            while i < t.end {
+                if buf[i] >= 0x80 {
+                    return DerErr::Alphabet;
+                }
+                i += 1;
+            }
+        },
+        BMP => {
+            if n % 2 != 0 {
+                return DerErr::Alphabet;
+            }
+        },
+        UNIVERSAL => {
+            if n % 4 != 0 {
+                return DerErr::Alphabet;
+            }
+        },
+        UTCTIME | GENTIME => {
+            if !strict_time(buf, t) {
+                return DerErr::Time;
+            }
+        },
+        _ => {},
+    }
+    DerErr::Ok
+}
+
+/// Compare two encodings as DER SET OF requires (octet strings, shorter one padded with zeros).
+fn set_le(buf: &[u8], a: &Tlv, b: &Tlv) -> bool {
+    let la = a.end - a.hdr;
+    let lb = b.end - b.hdr;
+    let mut i = 0;
+    while i < la || i < lb {
+        let x = if i < la { buf[a.hdr + i] } else { 0 };
+        let y = if i < lb { buf[b.hdr + i] } else { 0 };
+        if x < y {
+            return true;
+        }
+        if x > y {
+            return false;
+        }
+        i += 1;
+    }
+    true
+}
+
+/// Generic strict-DER walk of the TLV tree rooted at buf[pos..limit): every length minimal,
+/// every universal primitive well-formed, SET children sorted, nothing left over.
+/// Context-specific primitives are opaque here (callers that know the IMPLICIT type use
+/// `strict_primitive` on them); context-specific constructed elements are descended into.
+pub fn strict_walk(buf: &[u8], pos: usize, limit: usize, depth: u32) -> DerErr {
+    if depth == 0 {
+        return DerErr::Depth;
+    }
+    let mut p = pos;
+    let mut prev: Option<Tlv> = None;
+    let _ = prev;
+    while p < limit {
+        let t = match read_tlv(buf, p, limit) {
+            Some(t) => t,
+            None => return if p + 1 < limit && buf[p] & 0x1f == 0x1f { DerErr::HighTag } else { DerErr::Truncated },
+        };
+        if !t.minimal {
+            return DerErr::NonMinimalLength;
+        }
+        if t.constructed() {
+            let e = strict_walk(buf, t.start, t.end, depth - 1);
+            if e != DerErr::Ok {
+                return e;
+            }
+            if t.tag == SET {
+                let e = strict_set_sorted(buf, &t);
+                if e != DerErr::Ok {
+                    return e;
+                }
+            }
+        } else if t.tag & 0xc0 == 0 {
+            let e = strict_primitive(buf, &t, t.tag & 0x1f);
+            if e != DerErr::Ok {
+                return e;
+            }
+        }
+        prev = Some(t);
+        p = t.end;
+    }
+    if p != limit {
+        return DerErr::Trailing;
+    }
+    DerErr::Ok
+}
+
+pub fn strict_set_sorted(buf: &[u8], set: &Tlv) -> DerErr {
+    let mut c = Cur::of(set);
+    let mut prev: Option<Tlv> = None;
+    while !c.done() {
+        let t = match c.next(buf) {
+            Some(t) => t,
+            None => return DerErr::Truncated,
+        };
+        if let Some(p) = prev {
+            if !set_le(buf, &p, &t) {
+                return DerErr::SetOrder;
+            }
+        }
+        prev = Some(t);
+    }
+    DerErr::Ok
+}
+
+/// Whole buffer = exactly one strictly valid DER element.
+pub fn strict_whole(buf: &[u8], depth: u32) -> DerErr {
+    match read_tlv(buf, 0, buf.len()) {
+        None => DerErr::Truncated,
+        Some(t) => {
+            if t.end != buf.len() {
+                return DerErr::Trailing;
+            }
+            strict_walk(buf, 0, buf.len(), depth)
+        },
+    }
+}
+
+/// A named-bit list is canonical when it has no trailing zero bits: empty list = `03 01 00`;
+/// otherwise the last content octet is non-zero and `unused` = its number of trailing zero bits.
+pub fn strict_named_bits(buf: &[u8], t: &Tlv) -> bool {
+    if strict_primitive(buf, t, BITSTR) != DerErr::Ok {
+        return false;
+    }
+    if t.len() == 1 {
+        return true;
+    }
+    let last = buf[t.end - 1];
+    if last == 0 {
+        return false;
+    }
+    let unused = buf[t.start];
+    // the lowest used bit must be set
+    (last >> unused) & 1 == 1
+}
+
+// ------------------------------------------------------------------------------------------
+// Reference encoder (concrete lengths), for byte-equality unit oracles.
+
+pub struct Enc {
+    pub buf: [u8; 256],
+    pub len: usize,
+}
+
+impl Enc {
+    pub fn new() -> Enc {
+        Enc { buf: [0; 256], len: 0 }
+    }
+    pub fn push(&mut self, b: u8) {
+        self.buf[self.len] = b;
+        self.len += 1;
+    }
+    pub fn extend(&mut self, s: &[u8]) {
+        let mut i = 0;
+        while i < s.len() {
+            self.push(s[i]);
+            i += 1;
+        }
+    }
+    pub fn bytes(&self) -> &[u8] {
+        &self.buf[..self.len]
+    }
+    /// tag, definite minimal length, content
+    pub fn tlv(&mut self, tag: u8, content: &[u8]) {
+        self.push(tag);
+        let n = content.len();
+        if n < 0x80 {
+            self.push(n as u8);
+        } else if n < 0x100 {
+            self.push(0x81);
+            self.push(n as u8);
+        } else {
+            self.push(0x82);
+            self.push((n >> 8) as u8);
+            self.push(n as u8);
+        }
+        self.extend(content);
+    }
+    /// OBJECT IDENTIFIER content octets from arcs.
+    pub fn oid_content(&mut self, arcs: &[u64]) {
+        let mut i = 1;
+        while i < arcs.len() {
+            let v = if i == 1 { arcs[0] * 40 + arcs[1] } else { arcs[i] };
+            let mut n = 1;
+            while n < 10 && (v >> (7 * n)) != 0 {
+                n += 1;
+            }
+            let mut k = n;
+            while k > 0 {
+                k -= 1;
+                let b = ((v >> (7 * k)) & 0x7f) as u8;
+                self.push(if k > 0 { b | 0x80 } else { b });
+            }
+            i += 1;
+        }
+    }
+    pub fn oid(&mut self, arcs: &[u64]) {
+        let mut c = Enc::new();
+        c.oid_content(arcs);
+        self.tlv(OID, c.bytes());
+    }
+}
+
+pub fn hex(s: &str) -> Vec<u8> {
+    let b: Vec<u8> = s.bytes().filter(|c| !c.is_ascii_whitespace()).collect();
+    let v = |c: u8| if c <= b'9' { c - b'0' } else { (c | 0x20) - b'a' + 10 };
+    b.chunks(2).map(|p| v(p[0]) << 4 | v(p[1])).collect()
+}
+
+#[cfg(test)]
+mod tests {
+    use super::*;
+
+    #[test]
+    fn reader_and_strict_on_known_der() {
+        // SEQ { INT 10, BOOL TRUE }
+        let d = hex("3006 02010a 0101ff");
+        assert_eq!(strict_whole(&d, 8), DerErr::Ok);
+        let t = read_whole(&d).unwrap();
+        let mut c = Cur::of(&t);
+        let i = c.expect(&d, INT).unwrap();
+        assert!(uint_is(&d, &i, &[10]) && uint_is(&d, &i, &[0, 0, 10]) && !uint_is(&d, &i, &[11]));
+        assert_eq!(bool_val(&d, &c.expect(&d, BOOL).unwrap()), Some(true));
+        assert!(c.done());
+        // non-minimal length, BOOL 01, padded INTEGER, key usage with trailing zero bits
+        assert_eq!(strict_whole(&hex("308106 02010a 0101ff"), 8), DerErr::NonMinimalLength);
+        assert!(read_whole(&hex("308106 02010a 0101ff")).is_some());
+        assert_eq!(strict_whole(&hex("3006 02010a 010101"), 8), DerErr::Boolean);
+        assert_eq!(strict_whole(&hex("3004 0202000a"), 8), DerErr::Integer);
+        assert_eq!(strict_whole(&hex("3005 0203008000"), 8), DerErr::Ok);
+        assert_eq!(strict_whole(&hex("3003 020100 00"), 8), DerErr::Trailing);
+        assert_eq!(strict_whole(&hex("0603 2a8003"), 8), DerErr::OidEnc);
+        assert_eq!(strict_whole(&hex("0603 2a8603"), 8), DerErr::Ok);
+        assert_eq!(strict_whole(&hex("0303 078001"), 8), DerErr::BitString);
+        let ku = hex("0303 078000");
+        let t = read_whole(&ku).unwrap();
+        assert_eq!(named_bits16(&ku, &t), Some(0x8000));
+        assert!(!strict_named_bits(&ku, &t));
+        let ku = hex("0302 0780");
+        let t = read_whole(&ku).unwrap();
+        assert_eq!(named_bits16(&ku, &t), Some(0x8000));
+        assert!(strict_named_bits(&ku, &t));
+        let ku = hex("0303 07ff80");
+        let t = read_whole(&ku).unwrap();
+        assert_eq!(named_bits16(&ku, &t), Some(0xff80));
+        assert!(strict_named_bits(&ku, &t));
+        // SET OF order
+        assert_eq!(strict_whole(&hex("3106 020102 020101"), 8), DerErr::SetOrder);
+        assert_eq!(strict_whole(&hex("3106 020101 020102"), 8), DerErr::Ok);
+        // times
+        assert_eq!(strict_whole(&hex("170d 3939313233313233353935395a"), 8), DerErr::Ok);
+        assert_eq!(strict_whole(&hex("170b 393931323331323335395a"), 8), DerErr::Time);
+        assert_eq!(strict_whole(&hex("180f 32303530303130313030303030305a"), 8), DerErr::Ok);
+        assert_eq!(strict_whole(&hex("1811 32303530303130313030303030302e315a"), 8), DerErr::Time);
+        // strings
+        assert_eq!(strict_whole(&hex("1302 4140"), 8), DerErr::Alphabet);
+        assert_eq!(strict_whole(&hex("1602 41c3"), 8), DerErr::Alphabet);
+        // OID decoding
+        let o = hex("0608 2a864886f70d0101");
+        let t = read_whole(&o).unwrap();
+        assert!(oid_is(&o, &t, &[1, 2, 840, 113549, 1, 1]));
+        let mut e = Enc::new();
+        e.oid(&[1, 2, 840, 113549, 1, 1]);
+        assert_eq!(e.bytes(), &o[..]);
+        let mut e = Enc::new();
+        e.oid(&[2, 5, 29, 15]);
+        assert_eq!(e.bytes(), &hex("0603551d0f")[..]);
+        let mut e = Enc::new();
+        e.tlv(OCTSTR, &[7u8; 130]);
+        assert_eq!(&e.bytes()[..3], &[4, 0x81, 130]);
+        assert_eq!(strict_whole(e.bytes(), 8), DerErr::Ok);
+    }
+}
